@@ -52,6 +52,7 @@ type PsyncEvent struct {
 	ReplID     string // as asked
 	Offset     int64  // as asked (the NEXT byte the replica wants); -1 when not a number
 	RawOffset  string
+	Refused    bool   // answered with a transient error reply (RefusePsyncs); the connection stays a normal one
 	Continue   bool   // true: +CONTINUE, false: +FULLRESYNC
 	Reply      string // reply line without "+" / CRLF
 	Reason     string // why: "ok", "replid-unknown", "replid2-beyond-second-offset", "no-backlog", "offset-before-backlog", "offset-after-backlog", "bad-offset"
@@ -69,7 +70,11 @@ type PsyncEvent struct {
 }
 
 func (e PsyncEvent) String() string {
-	return fmt.Sprintf("PSYNC %s %s -> +%s [%s; replid=%s replid2=%s second=%d mro=%d backlog=%d+%d]", e.ReplID, e.RawOffset, e.Reply, e.Reason,
+	sign := "+"
+	if e.Refused {
+		sign = "-"
+	}
+	return fmt.Sprintf("PSYNC %s %s -> "+sign+"%s [%s; replid=%s replid2=%s second=%d mro=%d backlog=%d+%d]", e.ReplID, e.RawOffset, e.Reply, e.Reason,
 		short(e.MasterReplID), short(e.MasterReplID2), e.SecondReplidOffset, e.MasterReplOffset, e.BacklogOff, e.BacklogHistLen)
 }
 
@@ -126,6 +131,8 @@ type Source struct {
 	hbRDB      int
 	stamp      func() int64
 	onPsync    func(PsyncEvent)
+	refuseLeft int
+	refuseLine string
 
 	wake     chan struct{}
 	stopped  bool
@@ -319,6 +326,15 @@ func (src *Source) DropReplicaAfter(n int64) {
 	src.broadcastLocked()
 }
 
+// RefusePsyncs makes the source answer the next n PSYNCs with the error reply `line` (without the
+// leading "-", e.g. "NOMASTERLINK Can't SYNC while not connected with my master") and keep the
+// connection open; afterwards it serves normally.  The refusals are logged (PsyncEvent.Refused).
+func (src *Source) RefusePsyncs(n int, line string) {
+	src.mu.Lock()
+	src.refuseLeft, src.refuseLine = n, line
+	src.mu.Unlock()
+}
+
 // DropReplicas closes every attached replica connection now.
 func (src *Source) DropReplicas() {
 	src.mu.Lock()
@@ -444,6 +460,20 @@ func cmdPsync(s *Server, c *conn, req *Req) (Reply, action) {
 		ev.Stamp = src.stamp()
 	}
 	off, err := strconv.ParseInt(raw, 10, 64)
+	if src.refuseLeft > 0 {
+		// a source that cannot serve a replica right now (-NOMASTERLINK, -LOADING) answers with an
+		// error and keeps the connection open, as Redis does
+		src.refuseLeft--
+		if err == nil {
+			ev.Offset = off
+		}
+		ev.Refused, ev.Reason, ev.Reply = true, "refused", src.refuseLine
+		src.log = append(src.log, ev)
+		if src.onPsync != nil {
+			src.onPsync(ev)
+		}
+		return Err(src.refuseLine), actNone
+	}
 	histlen := src.mro - src.backlogOff + 1
 	switch {
 	case err != nil:
